@@ -1,8 +1,10 @@
 """C13 — rejected requests cost nothing and the advertised wait is sufficient."""
-from props.C03 import RL, SPEC as C03
+from props.C03 import RL, RLSTRESS_WHAT, SPEC as C03
+from props.stress import stress_extra
 
 SPEC = {
     "components": [RL],
+    "extra": stress_extra("rlstress", "C13", ["-rounds", "300", "-g", "8"], ["-rounds", "6000", "-g", "12"], RLSTRESS_WHAT),
     "rule": C03["rule"] + "; C13 monitors use the bucket levels read through verif hooks before/after every request",
     "trusted_base": C03["trusted_base"],
     "assumptions": C03["assumptions"],
